@@ -394,7 +394,7 @@ HARNESSES = [
             decides='history(oid, size) lists the newest `size` revisions with their transaction metadata',
             symbolic='oid (shape), size (0..10)', bounds='as load_before', oracle='RevStore.history', pure_python=True,
             code=['FileStorage.history'],
-            quick=dict(timeout=80, shards=shards(template=['T3', 'T4'], storage=['file'], reopen=[0], oshape=['low1'])),
+            quick=dict(timeout=80, shards=shards(template=['T3', 'T4', 'TX'], storage=['file'], reopen=[0], oshape=['low1'])),
             thorough=dict(timeout=600, shards=shards(template=_FILE_ALL, storage=['file'], reopen=[0, 2], oshape=['low1']))),
     Harness('undo_log', h_undo_log,
             decides='undoLog(first, last) lists the same transactions and metadata as the history, newest first',
